@@ -1,7 +1,7 @@
 (* Codec4Proofs.v — C03 for AirTouch 4: every message in the domain encodes to a payload
    of the announced size which decodes back to the same message. *)
 From Coq Require Import NArith ZArith List Bool Lia Arith.
-From PV Require Import base.Res base.Utf8 at4.Msg4 at4.Codec4.
+From PV Require Import base.Res base.Utf8 base.ListX at4.Msg4 at4.Codec4.
 Import ListNotations.
 Open Scope N_scope.
 
@@ -157,4 +157,549 @@ Proof.
   eexists. split; [reflexivity|]. split; [reflexivity|].
   unfold dec_ac_ctrl. rewrite B1b, B1c, B2b, B2c, B3b, B3c, apower_ctl_rt. cbn [obind].
   destruct sp as [| | |v']; inversion E; subst; reflexivity.
+Qed.
+
+(* ------------------------------------------------------------------ helpers *)
+Ltac b2p H :=
+  match type of H with
+  | (_ && _) = true => let A := fresh "B" in let B := fresh "B" in apply andb_prop in H as [A B]; b2p A; b2p B
+  | (_ <? _) = true => apply N.ltb_lt in H
+  | (_ =? _) = true => apply N.eqb_eq in H
+  | (_ <=? _)%Z = true => apply Z.leb_le in H
+  | (_ =? _)%Z = true => apply Z.eqb_eq in H
+  | _ => idtac
+  end.
+
+Lemma be16_div_mod v : v / 256 * 256 + v mod 256 = v.
+Proof. rewrite N.mul_comm. symmetry. apply N.div_mod. discriminate. Qed.
+
+Lemma forallb_In {A} (f : A -> bool) l : forallb f l = true -> forall a, In a l -> f a = true.
+Proof. intros H a Ha. rewrite forallb_forall in H. auto. Qed.
+
+(* ------------------------------------------------------------ temperature *)
+Lemma temp_sweep :
+  forallb (fun v => let d := (Z.of_N v - 500)%Z in
+     match enc_temp d with
+     | Some t => (t <? 65536) && (N.land t 0x1F =? 0) && (dec_temp t =? d)%Z && (N.land t 0xFFE0 =? t)
+     | None => false end) (below 2048) = true.
+Proof. vm_compute. reflexivity. Qed.
+
+Lemma temp_rt d : (-500 <= d <= 1547)%Z ->
+  exists t, enc_temp d = Some t /\ t < 65536 /\ N.land t 0x1F = 0 /\ dec_temp t = d /\ N.land t 0xFFE0 = t.
+Proof.
+  intros H. pose proof (below_forall _ _ temp_sweep (Z.to_N (d + 500)) ltac:(lia)) as S.
+  cbn beta zeta in S. replace (Z.of_N (Z.to_N (d + 500)) - 500)%Z with d in S by lia.
+  destruct (enc_temp d) as [t|]; [|discriminate]. exists t.
+  apply andb_prop in S as [S S4]. apply andb_prop in S as [S S3]. apply andb_prop in S as [S1 S2].
+  b2p S1. b2p S2. b2p S3. b2p S4. repeat split; assumption.
+Qed.
+
+(* a temperature half-word with the spill bit (bit 4) added: both are recovered *)
+Lemma temp_spill_sweep :
+  forallb (fun v => forallb (fun s : bool =>
+     let t := N.shiftl v 5 in let w := t + b2n s 4 in
+     (w <? 65536) && (N.land w 0xFFE0 =? t) && Bool.eqb (bit w 4) s) [true; false]) (below 2048) = true.
+Proof. vm_compute. reflexivity. Qed.
+
+Lemma enc_temp_shift_sweep :
+  forallb (fun v => match enc_temp (Z.of_N v - 500) with Some t => t =? N.shiftl v 5 | None => false end) (below 2048) = true.
+Proof. vm_compute. reflexivity. Qed.
+
+Lemma enc_temp_shift d : (-500 <= d <= 1547)%Z -> enc_temp d = Some (N.shiftl (Z.to_N (d + 500)) 5).
+Proof.
+  intros H. pose proof (below_forall _ _ enc_temp_shift_sweep (Z.to_N (d + 500)) ltac:(lia)) as S.
+  cbn beta in S. replace (Z.of_N (Z.to_N (d + 500)) - 500)%Z with d in S by lia.
+  destruct (enc_temp d) as [t|]; [|discriminate]. b2p S. now subst.
+Qed.
+
+Lemma dec_temp_shift_sweep :
+  forallb (fun v => (dec_temp (N.shiftl v 5) =? Z.of_N v - 500)%Z) (below 2048) = true.
+Proof. vm_compute. reflexivity. Qed.
+
+(* ------------------------------------------------------- x2B group status *)
+Definition dom_group_status (g : group_status) : bool :=
+  (gs_group g <? 64) && (gs_damper g <? 128) &&
+  match gs_setpoint g with Some v => gs_sensor g && (v <? 64) | None => negb (gs_sensor g) end &&
+  match gs_temp g with Some d => gs_sensor g && (-500 <=? d)%Z && (d <=? 1539)%Z | None => true end.
+
+Lemma gs_b1_sweep :
+  forallb (fun n => forallb (fun c =>
+    let b := N.shiftl c 6 + N.land n 0x3F in
+    (b <? 256) && (N.land b 0x3F =? n) && (N.shiftr (N.land b 0xC0) 6 =? c)) (below 4)) (below 64) = true.
+Proof. vm_compute. reflexivity. Qed.
+
+Lemma gs_b2_sweep :
+  forallb (fun c => forallb (fun d =>
+    let b := N.shiftl c 7 + N.land d 0x7F in
+    (b <? 256) && (N.land b 0x7F =? d) && (N.shiftr (N.land b 0x80) 7 =? c)) (below 128)) (below 2) = true.
+Proof. vm_compute. reflexivity. Qed.
+
+Lemma gs_b3_sweep :
+  forallb (fun c => forallb (fun tu : bool => forallb (fun sp =>
+    let b := N.shiftl c 7 + b2n tu 6 + sp in
+    (b <? 256) && (N.land b 0x3F =? sp) && (N.shiftr (N.land b 0x80) 7 =? c) && Bool.eqb (bit b 6) tu)
+    (below 64)) [true; false]) (below 2) = true.
+Proof. vm_compute. reflexivity. Qed.
+
+Lemma gpower_code_lt p : gpower_code p < 4. Proof. destruct p; reflexivity. Qed.
+Lemma gmethod_code_lt p : gmethod_code p < 2. Proof. destruct p; reflexivity. Qed.
+Lemma battery_code_lt p : battery_code p < 2. Proof. destruct p; reflexivity. Qed.
+
+Lemma group_status_roundtrip g : dom_group_status g = true ->
+  exists p, enc_group_status1 g = Some p /\ length p = 6%nat /\ dec_group_status1 p = Some g.
+Proof.
+  destruct g as [n pw me spill turbo sensor ba temp damper sp]. unfold dom_group_status.
+  cbn [gs_group gs_damper gs_setpoint gs_temp gs_sensor]. intros H.
+  apply andb_prop in H as [H Ht]. apply andb_prop in H as [H Hsp]. apply andb_prop in H as [Hn Hd]. b2p Hn. b2p Hd.
+  pose proof (below2_forall _ _ _ gs_b1_sweep n (gpower_code pw) Hn (gpower_code_lt pw)) as S1.
+  cbn beta zeta in S1. apply andb_prop in S1 as [S1 S1c]. apply andb_prop in S1 as [S1a S1b]. b2p S1a. b2p S1b. b2p S1c.
+  pose proof (below2_forall _ _ _ gs_b2_sweep (gmethod_code me) damper (gmethod_code_lt me) Hd) as S2.
+  cbn beta zeta in S2. apply andb_prop in S2 as [S2 S2c]. apply andb_prop in S2 as [S2a S2b]. b2p S2a. b2p S2b. b2p S2c.
+  (* byte 3: battery, turbo, set-point *)
+  assert (E3 : exists s, match sp with Some v => if v =? 0 then 0 else N.land v 63 | None => 0 end = s /\ s < 64 /\
+                         (if sensor then Some s else None) = sp).
+  { destruct sp as [v|].
+    - apply andb_prop in Hsp as [Hs Hv]. b2p Hv. subst sensor. destruct (v =? 0) eqn:Ev.
+      + apply N.eqb_eq in Ev. subst v. exists 0. repeat split; reflexivity.
+      + exists v. split; [|split; [exact Hv|reflexivity]].
+        change 63 with (N.ones 6). rewrite N.land_ones. apply N.mod_small. exact Hv.
+    - apply negb_true_iff in Hsp. subst sensor. exists 0. repeat split; reflexivity. }
+  destruct E3 as [s [Es [Hs Ds]]].
+  pose proof (below_forall _ _ gs_b3_sweep (battery_code ba) (battery_code_lt ba)) as S3. cbn beta in S3.
+  rewrite forallb_forall in S3. specialize (S3 turbo ltac:(destruct turbo; cbn; auto)).
+  pose proof (below_forall _ _ S3 s Hs) as S3'. cbn beta zeta in S3'. clear S3.
+  apply andb_prop in S3' as [S3 S3d]. apply andb_prop in S3 as [S3 S3c]. apply andb_prop in S3 as [S3a S3b].
+  b2p S3a. b2p S3b. b2p S3c. apply Bool.eqb_prop in S3d.
+  (* bytes 5-6: temperature and spill *)
+  assert (E5 : exists v, match temp with Some d => enc_temp d | None => Some 65280 end = Some (N.shiftl v 5) /\ v < 2048 /\
+                         (if negb sensor || (N.shiftl v 5 =? 65280) then None else Some (dec_temp (N.shiftl v 5))) = temp).
+  { destruct temp as [d|].
+    - apply andb_prop in Ht as [Ht Ht3]. apply andb_prop in Ht as [Ht1 Ht2]. b2p Ht2. b2p Ht3. rewrite Ht1.
+      exists (Z.to_N (d + 500)). split; [apply enc_temp_shift; lia|]. split; [lia|]. cbn [negb orb].
+      assert (N.shiftl (Z.to_N (d + 500)) 5 =? 65280 = false) as ->.
+      { apply N.eqb_neq. rewrite N.shiftl_mul_pow2. change (2 ^ 5) with 32. lia. }
+      pose proof (below_forall _ _ dec_temp_shift_sweep (Z.to_N (d + 500)) ltac:(lia)) as S. cbn beta in S. b2p S.
+      rewrite S. f_equal. lia.
+    - exists 2040. split; [reflexivity|]. split; [reflexivity|]. now rewrite orb_true_r. }
+  destruct E5 as [v [E5 [Hv D5]]].
+  pose proof (below_forall _ _ temp_spill_sweep v Hv) as S5. cbn beta in S5. rewrite forallb_forall in S5.
+  specialize (S5 spill ltac:(destruct spill; cbn; auto)). cbn zeta in S5.
+  apply andb_prop in S5 as [S5 S5c]. apply andb_prop in S5 as [S5a S5b]. b2p S5a. b2p S5b. apply Bool.eqb_prop in S5c.
+  unfold enc_group_status1. cbn [gs_power gs_group gs_method gs_damper gs_setpoint gs_battery gs_turbo gs_temp gs_spill gs_sensor].
+  rewrite Es, E5. cbn [obind].
+  assert (Hb4 : b2n sensor 7 < 256 /\ bit (b2n sensor 7) 7 = sensor) by (destruct sensor; split; reflexivity).
+  destruct Hb4 as [Hb4 Db4].
+  rewrite (pack_B_ok _ S1a), (pack_B_ok _ S2a), (pack_B_ok _ S3a), (pack_B_ok _ Hb4), (pack_H_ok _ S5a). cbn [obind app].
+  eexists. split; [reflexivity|]. split; [reflexivity|].
+  unfold dec_group_status1. rewrite be16_div_mod, S1b, S1c, S2b, S2c, S3b, S3c, S3d, S5b, S5c, Db4, gpower_rt, gmethod_rt, battery_rt.
+  cbn [obind]. rewrite D5, Ds. reflexivity.
+Qed.
+
+(* ---------------------------------------------------------- x2D AC status *)
+Definition dom_ac_status (a : ac_status) : bool :=
+  (as_number a <? 64) && (as_setpoint a <? 64) && (-500 <=? as_temp a)%Z && (as_temp a <=? 1547)%Z && (as_error a <? 65536).
+
+Lemma as_b3_sweep :
+  forallb (fun sp => forallb (fun s : bool => forallb (fun t : bool =>
+    let b := b2n s 7 + b2n t 6 + N.land sp 0x3F in
+    (b <? 256) && (N.land b 0x3F =? sp) && Bool.eqb (bit b 7) s && Bool.eqb (bit b 6) t)
+    [true; false]) [true; false]) (below 64) = true.
+Proof. vm_compute. reflexivity. Qed.
+
+Lemma apower_code_lt p : apower_code p < 4. Proof. destruct p; reflexivity. Qed.
+
+Lemma ac_status_roundtrip a : dom_ac_status a = true ->
+  exists p, enc_ac_status1 a = Some p /\ length p = 8%nat /\ dec_ac_status1 p = Some a.
+Proof.
+  destruct a as [n pw mo fa spill ti sp temp er]. unfold dom_ac_status.
+  cbn [as_number as_setpoint as_temp as_error]. intros H.
+  apply andb_prop in H as [H He]. apply andb_prop in H as [H Ht2]. apply andb_prop in H as [H Ht1].
+  apply andb_prop in H as [Hn Hsp]. b2p Hn. b2p Hsp. b2p Ht1. b2p Ht2. b2p He.
+  pose proof (below2_forall _ _ _ ac_b1_sweep n (apower_code pw) Hn (apower_code_lt pw)) as S1.
+  cbn beta zeta in S1. apply andb_prop in S1 as [S1 S1c]. apply andb_prop in S1 as [S1a S1b]. b2p S1a. b2p S1b. b2p S1c.
+  assert (Hb2 : let b := N.land (N.shiftl (amode_code mo) 4) 0xF0 + N.land (afan_code fa) 0x0F in
+                b < 256 /\ amode_of (N.shiftr (N.land b 0xF0) 4) = Some mo /\ afan_of (N.land b 0x0F) = Some fa)
+    by (destruct mo, fa; vm_compute; repeat split; reflexivity).
+  cbn zeta in Hb2. destruct Hb2 as [B2a [B2b B2c]].
+  pose proof (below_forall _ _ as_b3_sweep sp Hsp) as S3. cbn beta in S3. rewrite forallb_forall in S3.
+  specialize (S3 spill ltac:(destruct spill; cbn; auto)). rewrite forallb_forall in S3.
+  specialize (S3 ti ltac:(destruct ti; cbn; auto)). cbn zeta in S3.
+  apply andb_prop in S3 as [S3 S3d]. apply andb_prop in S3 as [S3 S3c]. apply andb_prop in S3 as [S3a S3b].
+  b2p S3a. b2p S3b. apply Bool.eqb_prop in S3c. apply Bool.eqb_prop in S3d.
+  destruct (temp_rt temp ltac:(lia)) as [t [Et [Ht [_ [Dt _]]]]].
+  unfold enc_ac_status1. cbn [as_number as_power as_mode as_fan as_spill as_timer as_setpoint as_temp as_error].
+  rewrite Et. cbn [obind].
+  rewrite (pack_B_ok _ S1a), (pack_B_ok _ B2a), (pack_B_ok _ S3a), (pack_H_ok _ Ht), (pack_H_ok _ He). cbn [obind app].
+  eexists. split; [reflexivity|]. split; [reflexivity|].
+  unfold dec_ac_status1. rewrite S1b, S1c, B2b, B2c, apower_rt. cbn [obind].
+  rewrite S3b, S3c, S3d, !be16_div_mod, Dt. reflexivity.
+Qed.
+
+(* ------------------------------------------------------ x36 / x37 timers *)
+Definition dom_timer_state (t : timer_state) : bool := (ts_hour t <? 32) && (ts_minute t <? 64).
+Lemma timer_b1_sweep :
+  forallb (fun h => forallb (fun d : bool =>
+    let b := b2n d 7 + N.land h 0x1F in
+    (b <? 256) && (N.land b 0x1F =? h) && Bool.eqb (bit b 7) d) [true; false]) (below 32) = true.
+Proof. vm_compute. reflexivity. Qed.
+
+Lemma timer_b2_sweep : forallb (fun m => N.land (N.land m 0x3F) 0x3F =? m) (below 64) = true.
+Proof. vm_compute. reflexivity. Qed.
+
+Lemma timer_state_rt t : dom_timer_state t = true ->
+  exists a b, enc_timer_state t = [a; b] /\ a < 256 /\ b < 256 /\ dec_timer_state a b = t.
+Proof.
+  destruct t as [d h m]. unfold dom_timer_state. cbn [ts_hour ts_minute]. intros H.
+  apply andb_prop in H as [Hh Hm]. b2p Hh. b2p Hm.
+  unfold enc_timer_state. cbn [ts_disabled ts_hour ts_minute]. eexists. eexists. split; [reflexivity|].
+  pose proof (below_forall _ _ timer_b1_sweep h Hh) as S. cbn beta in S. rewrite forallb_forall in S.
+  specialize (S d ltac:(destruct d; cbn; auto)). cbn zeta in S.
+  apply andb_prop in S as [S Sc]. apply andb_prop in S as [Sa Sb]. b2p Sa. b2p Sb. apply Bool.eqb_prop in Sc.
+  pose proof (below_forall _ _ timer_b2_sweep m Hm) as S2. cbn beta in S2. b2p S2.
+  split; [exact Sa|]. split.
+  - change 63 with (N.ones 6). rewrite N.land_ones. pose proof (N.mod_upper_bound m (2^6) ltac:(discriminate)). cbn in *. lia.
+  - unfold dec_timer_state. rewrite Sb, Sc, S2. reflexivity.
+Qed.
+
+
+Definition dom_timers4 (l : list timer_data) : bool :=
+  match l with
+  | [t0; t1; t2; t3] =>
+    (td_number t0 =? 0) && (td_number t1 =? 1) && (td_number t2 =? 2) && (td_number t3 =? 3) &&
+    forallb (fun t => dom_timer_state (td_on t) && dom_timer_state (td_off t)) l
+  | _ => false
+  end.
+
+Lemma timers4_roundtrip l : dom_timers4 l = true ->
+  exists p, enc_timers l = Some p /\ length p = 32%nat /\ dec_timers p = Some l.
+Proof.
+  destruct l as [|[n0 on0 off0] [|[n1 on1 off1] [|[n2 on2 off2] [|[n3 on3 off3] [|? ?]]]]]; try discriminate.
+  unfold dom_timers4. cbn [td_number td_on td_off forallb]. intros H.
+  apply andb_prop in H as [H Hs]. apply andb_prop in H as [H H3]. apply andb_prop in H as [H H2]. apply andb_prop in H as [H0 H1].
+  b2p H0. b2p H1. b2p H2. b2p H3. subst.
+  apply andb_prop in Hs as [Hs0 Hs]. apply andb_prop in Hs as [Hs1 Hs]. apply andb_prop in Hs as [Hs2 Hs].
+  apply andb_prop in Hs as [Hs3 _].
+  apply andb_prop in Hs0 as [A0 B0]. apply andb_prop in Hs1 as [A1 B1]. apply andb_prop in Hs2 as [A2 B2]. apply andb_prop in Hs3 as [A3 B3].
+  destruct (timer_state_rt on0 A0) as [a0 [a0' [Ea0 [_ [_ Da0]]]]]. destruct (timer_state_rt off0 B0) as [b0 [b0' [Eb0 [_ [_ Db0]]]]].
+  destruct (timer_state_rt on1 A1) as [a1 [a1' [Ea1 [_ [_ Da1]]]]]. destruct (timer_state_rt off1 B1) as [b1 [b1' [Eb1 [_ [_ Db1]]]]].
+  destruct (timer_state_rt on2 A2) as [a2 [a2' [Ea2 [_ [_ Da2]]]]]. destruct (timer_state_rt off2 B2) as [b2 [b2' [Eb2 [_ [_ Db2]]]]].
+  destruct (timer_state_rt on3 A3) as [a3 [a3' [Ea3 [_ [_ Da3]]]]]. destruct (timer_state_rt off3 B3) as [b3 [b3' [Eb3 [_ [_ Db3]]]]].
+  assert (E : enc_timers [mkTD 0 on0 off0; mkTD 1 on1 off1; mkTD 2 on2 off2; mkTD 3 on3 off3] =
+              Some [a0; a0'; b0; b0'; 0; 0; 0; 0; a1; a1'; b1; b1'; 0; 0; 0; 0;
+                    a2; a2'; b2; b2'; 0; 0; 0; 0; a3; a3'; b3; b3'; 0; 0; 0; 0]).
+  { unfold enc_timers. cbn [fold_left td_number td_on td_off obind N.ltb N.compare Pos.compare Pos.compare_cont].
+    rewrite Ea0, Eb0, Ea1, Eb1, Ea2, Eb2, Ea3, Eb3. reflexivity. }
+  rewrite E. eexists. split; [reflexivity|]. split; [reflexivity|].
+  cbn -[dec_timer_state]. rewrite Da0, Db0, Da1, Db1, Da2, Db2, Da3, Db3. reflexivity.
+Qed.
+
+(* ------------------------------------------------------------ separators *)
+Definition sep_free (sep : N) (s : list N) : bool := forallb (fun b => negb (b =? sep)) s.
+
+Lemma split_aux_app sep x : forall cur l, sep_free sep x = true ->
+  split_sep_aux sep cur (x ++ l) = split_sep_aux sep (rev x ++ cur) l.
+Proof.
+  induction x as [|b x IH]; intros cur l H; [reflexivity|].
+  cbn in H. apply andb_prop in H as [Hb Hx]. apply negb_true_iff in Hb.
+  cbn [app split_sep_aux]. rewrite Hb, (IH _ _ Hx). cbn [rev]. now rewrite <- app_assoc.
+Qed.
+
+Lemma split_join sep vs : vs <> [] -> forallb (sep_free sep) vs = true ->
+  split_sep sep (join_sep sep vs) = vs.
+Proof.
+  unfold split_sep. induction vs as [|x vs IH]; intros Hne H; [contradiction|].
+  cbn in H. apply andb_prop in H as [Hx Hvs]. destruct vs as [|y r].
+  - cbn [join_sep]. rewrite <- (app_nil_r x) at 1. rewrite (split_aux_app sep x [] [] Hx).
+    cbn [split_sep_aux]. now rewrite app_nil_r, rev_involutive.
+  - cbn [join_sep]. rewrite (split_aux_app sep x [] _ Hx). cbn [split_sep_aux]. rewrite N.eqb_refl.
+    rewrite app_nil_r, rev_involutive. f_equal. apply IH; [discriminate|exact Hvs].
+Qed.
+
+(* -------------------------------------------------- ordered dictionaries *)
+Fixpoint keys_distinct (l : list (N * list N)) : bool :=
+  match l with
+  | [] => true
+  | (k, _) :: r => negb (existsb (fun e => fst e =? k) r) && keys_distinct r
+  end.
+
+Lemma dict_set_fresh d k v : existsb (fun e => fst e =? k) d = false -> dict_set d k v = d ++ [(k, v)].
+Proof.
+  induction d as [|[k' v'] d IH]; cbn; intros H; [reflexivity|].
+  apply orb_false_iff in H as [Hk Hd]. rewrite N.eqb_sym, Hk. now rewrite (IH Hd).
+Qed.
+
+Lemma dict_of_distinct_aux l : forall acc,
+  keys_distinct l = true -> (forall e, In e l -> existsb (fun a => fst a =? fst e) acc = false) ->
+  fold_left (fun d e => dict_set d (fst e) (snd e)) l acc = acc ++ l.
+Proof.
+  induction l as [|[k v] l IH]; intros acc Hd Hacc; cbn [fold_left]; [now rewrite app_nil_r|].
+  cbn in Hd. apply andb_prop in Hd as [Hk Hl]. apply negb_true_iff in Hk.
+  cbn [fst snd]. rewrite (dict_set_fresh acc k v (Hacc (k, v) (or_introl eq_refl))).
+  rewrite IH; [now rewrite <- app_assoc|exact Hl|].
+  intros e He. rewrite existsb_app. cbn [existsb fst]. rewrite (Hacc e (or_intror He)). cbn [orb].
+  rewrite orb_false_r. apply N.eqb_neq. intros Heq.
+  assert (existsb (fun e0 => fst e0 =? k) l = true) as C; [|congruence].
+  apply existsb_exists. exists e. split; [exact He|]. now apply N.eqb_eq.
+Qed.
+
+Lemma dict_of_distinct l : keys_distinct l = true -> dict_of l = l.
+Proof. intros H. unfold dict_of. now rewrite (dict_of_distinct_aux l [] H (fun _ _ => eq_refl)). Qed.
+
+(* ---------------------------------------------------- 0x1F sub-messages *)
+Lemma land_ff v : v < 256 -> N.land v 0xFF = v.
+Proof. intros H. change 255 with (N.ones 8). rewrite N.land_ones. now apply N.mod_small. Qed.
+
+Definition is_nil {A} (l : list A) : bool := match l with [] => true | _ => false end.
+
+Definition dom_str (maxlen : N) (s : list N) : bool := (N.of_nat (length s) <? maxlen) && utf8_valid s.
+
+Lemma qt_sweep :
+  forallb (fun tm => (N.land ((tm / 60) mod 24) 0xFF * 60 + N.land (tm mod 60) 0xFF =? tm) &&
+                     (N.land ((tm / 60) mod 24) 0xFF <? 256) && (N.land (tm mod 60) 0xFF <? 256)) (below 1440) = true.
+Proof. vm_compute. reflexivity. Qed.
+
+Definition dom_name4 (e : N * list N) : bool :=
+  (fst e <? 256) && nul_free (snd e) && (N.of_nat (length (snd e)) <? 9) && utf8_valid (snd e).
+
+Lemma name4_roundtrip e : dom_name4 e = true ->
+  exists r, enc_name1 e = Some r /\ length r = 9%nat /\ dec_name1 r = Some e.
+Proof.
+  destruct e as [g name]. unfold dom_name4. cbn [fst snd]. intros H.
+  apply andb_prop in H as [H Hu]. apply andb_prop in H as [H Hl]. apply andb_prop in H as [Hg Hn]. b2p Hg. b2p Hl.
+  unfold enc_name1. cbn [fst snd]. rewrite (pack_B_ok g Hg). cbn [obind app].
+  eexists. split; [reflexivity|]. split; [cbn [length]; now rewrite pad_to_length|].
+  cbn [dec_name1]. rewrite (cstring_pad 8 name Hn ltac:(lia)), Hu. reflexivity.
+Qed.
+
+(* support bitmaps *)
+Lemma bits5 m0 m1 m2 m3 m4 : let b := bits_byte [m0; m1; m2; m3; m4] in
+  b < 256 /\ [bit b 0; bit b 1; bit b 2; bit b 3; bit b 4] = [m0; m1; m2; m3; m4].
+Proof. destruct m0, m1, m2, m3, m4; split; reflexivity. Qed.
+
+Lemma bits7 m0 m1 m2 m3 m4 m5 m6 : let b := bits_byte [m0; m1; m2; m3; m4; m5; m6] in
+  b < 256 /\ [bit b 0; bit b 1; bit b 2; bit b 3; bit b 4; bit b 5; bit b 6] = [m0; m1; m2; m3; m4; m5; m6].
+Proof. destruct m0, m1, m2, m3, m4, m5, m6; split; reflexivity. Qed.
+
+Fixpoint leqb (a b : list N) : bool :=
+  match a, b with
+  | [], [] => true
+  | x :: a', y :: b' => (x =? y) && leqb a' b'
+  | _, _ => false
+  end.
+Lemma leqb_eq a : forall b, leqb a b = true -> a = b.
+Proof.
+  induction a as [|x a IH]; intros [|y b] H; try discriminate; [reflexivity|].
+  cbn in H. apply andb_prop in H as [H1 H2]. apply N.eqb_eq in H1. subst. f_equal. now apply IH.
+Qed.
+
+(* the group set is the ascending list of the bits of a 16-bit map *)
+Definition canon_groups (gs : list N) : bool :=
+  (group_bitmap gs <? 65536) && leqb (groups_of_bitmap (group_bitmap gs)) gs.
+
+Definition dom_ability4 (a : ability) : bool :=
+  (ab_number a <? 256) && (ab_start a <? 256) && (ab_count a <? 256) && (ab_min a <? 256) && (ab_max a <? 256) &&
+  Nat.eqb (length (ab_modes a)) 5 && Nat.eqb (length (ab_fans a)) 7 &&
+  nul_free (ab_name a) && (N.of_nat (length (ab_name a)) <? 17) && utf8_valid (ab_name a) &&
+  match ab_groups a with Some gs => canon_groups gs | None => true end.
+
+Lemma le16_div_mod v : v mod 256 + v / 256 * 256 = v.
+Proof. rewrite N.add_comm. apply be16_div_mod. Qed.
+
+Lemma ability4_roundtrip a : dom_ability4 a = true ->
+  exists r, enc_ability1 a = Some r /\
+            length r = (24 + match ab_groups a with Some _ => 2 | None => 0 end)%nat /\
+            forall fuel rest, dec_abilities (S fuel) (r ++ rest) = (rs <- dec_abilities fuel rest ;; Some (a :: rs)).
+Proof.
+  destruct a as [num name modes fans mi ma groups st ct]. unfold dom_ability4.
+  cbn [ab_number ab_name ab_modes ab_fans ab_min ab_max ab_groups ab_start ab_count]. intros H.
+  apply andb_prop in H as [H Hg]. apply andb_prop in H as [H Hu]. apply andb_prop in H as [H Hl].
+  apply andb_prop in H as [H Hnf]. apply andb_prop in H as [H Hfl]. apply andb_prop in H as [H Hml].
+  apply andb_prop in H as [H Hma]. apply andb_prop in H as [H Hmi]. apply andb_prop in H as [H Hct].
+  apply andb_prop in H as [Hnum Hst]. b2p Hnum. b2p Hst. b2p Hct. b2p Hmi. b2p Hma. b2p Hl.
+  apply Nat.eqb_eq in Hml, Hfl.
+  destruct modes as [|m0 [|m1 [|m2 [|m3 [|m4 [|? ?]]]]]]; try discriminate Hml.
+  destruct fans as [|f0 [|f1 [|f2 [|f3 [|f4 [|f5 [|f6 [|? ?]]]]]]]]; try discriminate Hfl.
+  destruct (bits5 m0 m1 m2 m3 m4) as [Lm Dm]. destruct (bits7 f0 f1 f2 f3 f4 f5 f6) as [Lf Df].
+  unfold enc_ability1. cbn [ab_number ab_name ab_modes ab_fans ab_min ab_max ab_groups ab_start ab_count].
+  rewrite (pack_B_ok _ Hnum), (pack_B_ok _ Hst), (pack_B_ok _ Hct), (pack_B_ok _ Lm), (pack_B_ok _ Lf),
+          (pack_B_ok _ Hmi), (pack_B_ok _ Hma).
+  pose proof (cstring_pad 16 name Hnf ltac:(lia)) as Cs. pose proof (pad_to_length 16 name) as Pl.
+  remember (pad_to 16 name) as pn eqn:Epn. clear Epn.
+  do 17 (destruct pn as [|? pn]; try discriminate Pl). clear Pl.
+  remember (bits_byte [m0; m1; m2; m3; m4]) as mb. remember (bits_byte [f0; f1; f2; f3; f4; f5; f6]) as fb.
+  destruct groups as [gs|].
+  - apply andb_prop in Hg as [Hv Hgs]. b2p Hv. apply leqb_eq in Hgs. rewrite (pack_B_ok 24 ltac:(reflexivity)).
+    apply N.ltb_lt in Hv. rewrite Hv. cbn [obind app].
+    eexists. split; [reflexivity|]. split; [reflexivity|]. intros fuel rest.
+    cbn -[cstring utf8_valid groups_of_bitmap group_bitmap dec_abilities N.div N.modulo N.mul N.add bit].
+    change (dec_abilities (S fuel) ?l) with (dec_abilities (S fuel) l).
+    cbn [dec_abilities length Nat.ltb Nat.leb firstn skipn nth N.eqb Pos.eqb].
+    rewrite le16_div_mod, Hgs. cbn [obind]. rewrite Cs, Hu. cbn [negb].
+    destruct (dec_abilities fuel rest); cbn [obind]; [|reflexivity]. rewrite Dm, Df. reflexivity.
+  - rewrite (pack_B_ok 22 ltac:(reflexivity)). cbn [obind app].
+    eexists. split; [reflexivity|]. split; [reflexivity|]. intros fuel rest.
+    cbn [app dec_abilities length Nat.ltb Nat.leb firstn skipn nth N.eqb Pos.eqb obind].
+    rewrite Cs, Hu. cbn [negb].
+    destruct (dec_abilities fuel rest); cbn [obind]; [|reflexivity]. rewrite Dm, Df. reflexivity.
+Qed.
+
+Lemma abilities4_roundtrip l : forallb dom_ability4 l = true ->
+  exists p, enc_list enc_ability1 l = Some p /\
+            length p = fold_left (fun acc a => acc + 24 + match ab_groups a with Some _ => 2 | None => 0 end)%nat l 0%nat /\
+            (l <> [] -> (24 <= length p)%nat) /\
+            forall fuel, (length l <= fuel)%nat -> dec_abilities fuel p = Some l.
+Proof.
+  assert (G : forall l, forallb dom_ability4 l = true -> forall acc,
+    exists p, enc_list enc_ability1 l = Some p /\
+              (acc + length p)%nat = fold_left (fun acc a => acc + 24 + match ab_groups a with Some _ => 2 | None => 0 end)%nat l acc /\
+              (l <> [] -> (24 <= length p)%nat) /\
+              forall fuel, (length l <= fuel)%nat -> dec_abilities fuel p = Some l).
+  { clear l. induction l as [|a l IH]; intros H acc.
+    - exists []. split; [reflexivity|]. split; [cbn; lia|]. split; [intros C; contradiction|].
+      intros fuel _. destruct fuel; reflexivity.
+    - cbn in H. apply andb_prop in H as [Ha Hl].
+      destruct (ability4_roundtrip a Ha) as [r [Er [Lr Dr]]].
+      destruct (IH Hl (acc + 24 + match ab_groups a with Some _ => 2 | None => 0 end)%nat) as [p [Ep [Lp [_ Dp]]]].
+      unfold enc_list in *. cbn [map sequence]. rewrite Er. cbn [obind].
+      destruct (sequence (map enc_ability1 l)) as [rs|]; [|discriminate]. cbn [obind] in *. injection Ep as <-.
+      exists (r ++ concat rs). split; [reflexivity|]. rewrite app_length, Lr. split; [cbn [fold_left]; rewrite <- Lp; lia|].
+      split; [intros _; lia|]. intros fuel Hf. destruct fuel as [|fuel]; [cbn in Hf; lia|].
+      rewrite Dr, (Dp fuel ltac:(cbn in Hf; lia)). reflexivity. }
+  intros H. destruct (G l H 0%nat) as [p [E [L R]]]. exists p. split; [exact E|]. split; [exact L|]. exact R.
+Qed.
+
+Definition dom_sub4 (s : sub4) : bool :=
+  match s with
+  | S_ErrMsg ac info =>
+    (ac <? 256) && match info with Some e => negb (is_nil e) && dom_str 256 e | None => true end
+  | S_ErrReq ac => ac <? 256
+  | S_Ability l => negb (is_nil l) && forallb dom_ability4 l
+  | S_AbilityReq All | S_NamesReq All => true
+  | S_AbilityReq (Num n) | S_NamesReq (Num n) => n <? 256
+  | S_Names l => negb (is_nil l) && forallb dom_name4 l && keys_distinct l
+  | S_QuickTimer ac _ tm => (ac <? 256) && (tm <? 1440)
+  | S_Version _ vs => negb (is_nil vs) && forallb (sep_free VERSION_SEP) vs && dom_str 256 (join_sep VERSION_SEP vs)
+  | S_VersionReq => true
+  | S_Unsupported _ _ => false
+  end.
+
+Theorem sub4_roundtrip s : dom_sub4 s = true ->
+  exists id body, enc_sub s = Some (id, body) /\ id < 65536 /\
+                  size4 (M_Ext s) = Some (2 + length body)%nat /\
+                  dec_sub id (length body) body = Some (s, []).
+Proof.
+  destruct s as [ac info|ac|l|a|l|a|ac t tm|up vs| |id raw]; cbn [dom_sub4]; intros H; try discriminate H.
+  - (* error message *)
+    apply andb_prop in H as [Hac Hi]. b2p Hac. unfold enc_sub. rewrite (land_ff ac Hac).
+    destruct info as [[|e0 e]|].
+    + discriminate Hi.
+    + cbn [is_nil negb andb] in Hi. unfold dom_str in Hi. apply andb_prop in Hi as [Hl Hu]. b2p Hl.
+      rewrite (pack_B_ok _ Hl). cbn [obind app]. eexists. eexists. split; [reflexivity|]. split; [reflexivity|].
+      split; [reflexivity|]. remember (e0 :: e) as es.
+      unfold dec_sub. cbn [N.eqb Pos.eqb]. cbn [length Nat.eqb].
+      assert (Nat.eqb (length es) 0 = false) as Hz by (subst es; reflexivity).
+      destruct (length es) eqn:El; [discriminate Hz|]. cbn [Nat.eqb]. rewrite <- El. rewrite Nat2N.id.
+      rewrite firstn_all, skipn_all, Hu.
+      assert (N.of_nat (length es) =? 0 = false) as -> by (apply N.eqb_neq; lia). reflexivity.
+    + eexists. eexists. split; [reflexivity|]. repeat split; reflexivity.
+  - b2p H. unfold enc_sub. rewrite (land_ff ac H). eexists. eexists. repeat split; reflexivity.
+  - (* abilities *)
+    apply andb_prop in H as [Hne Hl]. destruct (abilities4_roundtrip l Hl) as [p [E [L [Lmin D]]]].
+    assert (Hne' : l <> []) by (destruct l; [discriminate Hne|discriminate]). specialize (Lmin Hne').
+    unfold enc_sub. rewrite E. cbn [obind]. eexists. eexists. split; [reflexivity|]. split; [reflexivity|].
+    split; [cbn [size4]; now rewrite L|].
+    unfold dec_sub. cbn [N.eqb Pos.eqb].
+    destruct (length p) as [|[|n]] eqn:Lp; try lia. cbn [Nat.eqb]. rewrite <- Lp.
+    rewrite firstn_all, skipn_all. rewrite (D (S (length p))); [reflexivity|].
+    (* each record has at least 24 bytes, so there are at most length p records *)
+    clear - L Lp. assert (forall (l : list ability) acc,
+      (acc + length l <= fold_left (fun acc a => acc + 24 + match ab_groups a with Some _ => 2 | None => 0 end) l acc)%nat) as G.
+    { induction l0 as [|a l0 IH]; intros acc; cbn; [lia|]. specialize (IH (acc + 24 + match ab_groups a with Some _ => 2 | None => 0 end)%nat). lia. }
+    specialize (G l 0%nat). lia.
+  - destruct a as [|n]; [eexists; eexists; repeat split; reflexivity|].
+    b2p H. unfold enc_sub. rewrite (pack_B_ok n H). cbn [obind]. eexists. eexists. repeat split; reflexivity.
+  - (* names *)
+    apply andb_prop in H as [H Hk]. apply andb_prop in H as [Hne Hl].
+    destruct (list_roundtrip enc_name1 dec_name1 9 l ltac:(lia)
+                (fun e He => name4_roundtrip e (forallb_In _ _ Hl e He))) as [p [E [L D]]].
+    unfold enc_sub. rewrite E. cbn [obind]. eexists. eexists. split; [reflexivity|]. split; [reflexivity|].
+    split; [cbn [size4]; now rewrite L|].
+    unfold dec_sub. cbn [N.eqb Pos.eqb].
+    assert (Hlen : (9 <= length l * 9)%nat) by (destruct l; [discriminate Hne|cbn [length]; lia]).
+    assert (Nat.eqb (length p) 0 = false) as -> by (apply Nat.eqb_neq; lia).
+    assert (Nat.eqb (length p) 1 = false) as -> by (apply Nat.eqb_neq; lia).
+    assert (Nat.eqb (length p mod 9) 0 = true) as ->.
+    { apply Nat.eqb_eq. rewrite L, Nat.mul_comm. apply Nat.mod_mul. lia. }
+    cbn [negb]. rewrite firstn_all, skipn_all, D. cbn [obind].
+    rewrite (dict_of_distinct _ Hk). rewrite Nat.ltb_irrefl. reflexivity.
+  - destruct a as [|n]; [eexists; eexists; repeat split; reflexivity|].
+    b2p H. unfold enc_sub. rewrite (pack_B_ok n H). cbn [obind]. eexists. eexists. repeat split; reflexivity.
+  - (* quick timer *)
+    apply andb_prop in H as [Hac Htm]. b2p Hac. b2p Htm.
+    pose proof (below_forall _ _ qt_sweep tm Htm) as S. cbn beta in S.
+    apply andb_prop in S as [S S3]. apply andb_prop in S as [S1 S2]. b2p S1.
+    unfold enc_sub. rewrite (pack_B_ok ac Hac). cbn [obind app].
+    eexists. eexists. split; [reflexivity|]. split; [reflexivity|]. split; [reflexivity|].
+    unfold dec_sub. cbn [N.eqb Pos.eqb]. destruct t; cbn [timer_type_code N.land timer_type_of obind]; rewrite S1; reflexivity.
+  - (* version *)
+    apply andb_prop in H as [H Hs]. apply andb_prop in H as [Hne Hf].
+    unfold dom_str in Hs. apply andb_prop in Hs as [Hl Hu]. b2p Hl.
+    unfold enc_sub. rewrite (pack_B_ok _ Hl). cbn [obind].
+    eexists. eexists. split; [reflexivity|]. split; [reflexivity|]. split; [reflexivity|].
+    unfold dec_sub. cbn [N.eqb Pos.eqb]. cbn [length Nat.eqb]. cbn [app]. rewrite Nat2N.id.
+    rewrite firstn_all, skipn_all, Hu.
+    rewrite split_join; [|destruct vs; [discriminate Hne|discriminate]|exact Hf].
+    destruct up; reflexivity.
+  - eexists. eexists. repeat split; reflexivity.
+Qed.
+
+(* ------------------------------------------------------------- top level *)
+Definition dom4 (m : msg4) : bool :=
+  match m with
+  | M_GroupCtrl c => dom_group_ctrl c
+  | M_GroupStatus l => negb (is_nil l) && forallb dom_group_status l
+  | M_AcCtrl c => dom_ac_ctrl c
+  | M_AcStatus l => negb (is_nil l) && forallb dom_ac_status l
+  | M_TimerCtrl l | M_TimerStatus l => dom_timers4 l
+  | M_GroupStatusReq | M_AcStatusReq | M_TimerStatusReq => true
+  | M_Ext s => dom_sub4 s
+  | M_Unsupported _ _ => false
+  end.
+
+
+Ltac status_list_case RT n :=
+  match goal with
+  | H : negb (is_nil ?l) && forallb _ ?l = true |- _ =>
+    let Hne := fresh "Hne" in let Hl := fresh "Hl" in apply andb_prop in H as [Hne Hl];
+    let p := fresh "p" in let E := fresh "E" in let L := fresh "L" in let D := fresh "D" in
+    destruct (list_roundtrip _ _ n l ltac:(lia) (fun a Ha => RT a (forallb_In _ _ Hl a Ha))) as [p [E [L D]]];
+    cbn [enc4 size4 type_of]; rewrite E; eexists; split; [reflexivity|]; split; [now rewrite L|];
+    unfold dec4; cbn [N.eqb Pos.eqb];
+    let Hlen := fresh "Hlen" in
+    assert (Hlen : (n <= length l * n)%nat) by (destruct l; [discriminate Hne|cbn [length]; lia]);
+    assert (Nat.eqb (length p) 0 = false) as -> by (apply Nat.eqb_neq; lia);
+    assert (Nat.eqb (length p mod n) 0 = true) as -> by (apply Nat.eqb_eq; rewrite L, Nat.mul_comm; apply Nat.mod_mul; lia);
+    cbn [negb]; rewrite D; reflexivity
+  end.
+
+Theorem msg4_roundtrip m : dom4 m = true ->
+  exists p, enc4 m = Some p /\ size4 m = Some (length p) /\ dec4 (type_of m) p = Some m.
+Proof.
+  destruct m as [c|l| |c|l| |l|l| |s|id raw]; cbn [dom4]; intros H; try discriminate H.
+  - destruct (group_ctrl_roundtrip c H) as [p [E [L D]]]. cbn [enc4 size4 type_of]. rewrite E.
+    eexists. split; [reflexivity|]. split; [now rewrite L|]. unfold dec4. cbn [N.eqb Pos.eqb]. now rewrite D.
+  - status_list_case group_status_roundtrip 6%nat.
+  - eexists. repeat split; reflexivity.
+  - destruct (ac_ctrl_roundtrip c H) as [p [E [L D]]]. cbn [enc4 size4 type_of]. rewrite E.
+    eexists. split; [reflexivity|]. split; [now rewrite L|]. unfold dec4. cbn [N.eqb Pos.eqb]. now rewrite D.
+  - status_list_case ac_status_roundtrip 8%nat.
+  - eexists. repeat split; reflexivity.
+  - destruct (timers4_roundtrip l H) as [p [E [L D]]]. cbn [enc4 size4 type_of]. rewrite E.
+    eexists. split; [reflexivity|]. split; [now rewrite L|]. unfold dec4. cbn [N.eqb Pos.eqb]. rewrite L, D. reflexivity.
+  - destruct (timers4_roundtrip l H) as [p [E [L D]]]. cbn [enc4 size4 type_of]. rewrite E.
+    eexists. split; [reflexivity|]. split; [now rewrite L|]. unfold dec4. cbn [N.eqb Pos.eqb]. rewrite L, D. reflexivity.
+  - eexists. repeat split; reflexivity.
+  - destruct (sub4_roundtrip s H) as [id [body [E [Hid [Sz D]]]]]. cbn [enc4 type_of]. rewrite E. cbn [obind fst snd].
+    eexists. split; [reflexivity|]. split; [rewrite Sz; reflexivity|].
+    unfold dec4. cbn [N.eqb Pos.eqb app]. rewrite be16_div_mod, D. reflexivity.
 Qed.
